@@ -20,6 +20,8 @@ pub struct RunOutcome {
     pub known_hits: Vec<String>,
     pub log_tail: Vec<String>,
     pub harness_error: Option<String>,
+    /// C14: the first recorded provider disagreement of the run, with its inputs
+    pub prim: Option<PrimCase>,
 }
 
 fn run_body(cfg: &SwarmCfg, seed: u64, replay: Option<&[Step]>) -> RunOutcome {
@@ -35,6 +37,7 @@ fn run_body(cfg: &SwarmCfg, seed: u64, replay: Option<&[Step]>) -> RunOutcome {
         known_hits: vec![],
         log_tail: vec![],
         harness_error: None,
+        prim: None,
     };
     let mut w = match World::new(cfg.clone(), seed) {
         Ok(w) => w,
@@ -69,6 +72,7 @@ fn run_body(cfg: &SwarmCfg, seed: u64, replay: Option<&[Step]>) -> RunOutcome {
     out.states = std::mem::take(&mut w.states_seen);
     out.known_hits = std::mem::take(&mut w.ext.known_hits);
     out.log_tail = std::mem::take(&mut w.log_tail);
+    out.prim = crate::crypto::rec_take_prim_cases().into_iter().next();
     out
 }
 
@@ -170,6 +174,7 @@ pub fn run_one(cfg: &SwarmCfg, seed: u64, replay: Option<Vec<Step>>) -> RunOutco
             known_hits: vec![],
             log_tail: vec![],
             harness_error: Some(format!("harness panic: {}", panic_msg(p))),
+            prim: None,
         },
     }
 }
